@@ -2,7 +2,7 @@
    Model/DataState.v is the stateful reading of Data.get_scores (caches, heap of array objects with
    identity, all in-place writes); Model/Data.v is the pure answer of a freshly built dataset. *)
 From Coq Require Import ZArith QArith List Bool.
-From VF Require Import Base.Num Model.Data Model.Cal Model.DataQ Model.DataState Model.DataStateQ Proofs.C18_proofs.
+From VF Require Import Base.Num Model.Data Model.Cal Model.DataQ Model.DataState Model.DataStateQ Proofs.C18_proofs Proofs.C18_frame.
 Import ListNotations.
 Open Scope Z_scope.
 
@@ -37,6 +37,19 @@ Theorem C18_witness_history_harmless_with_copy :
   answer_after true [w_all] w_obs = answer_after true [] w_obs.
 Proof. vm_compute. reflexivity. Qed.
 Print Assumptions C18_history_independence_refuted_without_copy.
+
+(* FOR HISTORIES OF ANY LENGTH (induction over the request list, invariant: the handed-out objects, the
+   cached field arrays and the heap bound; Proofs/C18_frame.v): with the repair in place, the arrays
+   returned by a call are never altered by any later sequence of calls -- "earlier results stay what
+   they were".  Together with C18_repeated_request_same_objects_partial (a repeated request returns
+   those very objects) this is the REPEATABILITY half of the property, for every dataset, value type,
+   option set and history. *)
+Theorem C18_returned_arrays_never_altered :
+  forall V vltb vsub vdiv axis_of (d : data V) hist1 rq hist2 s2 ids,
+  step V vltb vsub vdiv true axis_of d (fst (run V vltb vsub vdiv true axis_of d (init V) hist1)) rq = OK (s2, ids) ->
+  forall id, In id ids -> read V (fst (run V vltb vsub vdiv true axis_of d s2 hist2)) id = read V s2 id.
+Proof. exact returned_arrays_never_altered. Qed.
+Print Assumptions C18_returned_arrays_never_altered.
 
 (* PARTIAL (general statements proved so far; the invariant proof that EVERY history of the
    repaired step function answers like a fresh dataset is work in progress -- until then that
